@@ -294,8 +294,17 @@ def check_sentence(case, rec):
                 outcomes["ImageIterator"] = e
         try:
             w = UrwidImage(image, spec)
+            zdiff = None
+            if style == "kitty" and w._ti_style_args.get("z_index") != w._ti_z_index:
+                zdiff = (w._ti_style_args.get("z_index"), w._ti_z_index)
             del w
             outcomes["UrwidImage"] = None
+            if zdiff:
+                # documented for UrwidImage: the z-index field of the specifier is ignored (one z-index per widget)
+                raise Violation(f"{style}: UrwidImage(image, {spec!r}) renders on z-index {zdiff[0]} instead of the one allocated "
+                                f"to the widget ({zdiff[1]})", {"kind": "widget_z_from_spec"})
+        except Violation:
+            raise
         except Exception as e:
             outcomes["UrwidImage"] = e
     finally:
